@@ -50,6 +50,16 @@ inductive Script
 deriving DecidableEq, Repr
 
 inductive ErrKind | already | dial | register | closed | configure
+  /-- `NRI_PLUGIN_SOCKET` names a descriptor that is not (any more) a socket of this stub -/
+  | preconn
+deriving DecidableEq, Repr
+
+/-- Where `connect()` gets a connection from when none is recorded (`stub.conn == nil`):
+    the dialer; a connection handed over with `WithConnection` (used once, then the dialer);
+    the descriptor number in `NRI_PLUGIN_SOCKET` (how the runtime launches pre-installed
+    plugins; consumed and closed by its first use, but looked up again by every later
+    `Start`). -/
+inductive ConnSrc | dialer | given | envFd
 deriving DecidableEq, Repr
 
 /-- Result of one `Start` call. -/
@@ -77,9 +87,16 @@ structure State where
   estab : List Nat := []
   /-- a `Start` holds the mutex and will never return -/
   wedged : Bool := false
+  /-- sessions on whose `doneC` a `Wait` call is blocked (one entry per blocked call) -/
+  waiting : List Nat := []
+  /-- how the stub was created -/
+  src : ConnSrc := .dialer
+  /-- the pre-made connection (`given`, `envFd`) has been taken into use -/
+  preUsed : Bool := false
 deriving DecidableEq, Repr
 
 def init : State := {}
+def initWith (src : ConnSrc) : State := { src := src }
 
 /-- set-like insertion at the end -/
 def ins (x : Nat) (l : List Nat) : List Nat := if x ∈ l then l else l ++ [x]
@@ -129,51 +146,95 @@ def connDead (s : State) : Bool :=
 def alive (s : State) : Bool :=
   s.started && !decide (s.cur ∈ s.inflight) && !decide (s.cur ∈ s.fired)
 
+/-- `connect()` produced a connection nobody has used before: it gets the next number. -/
+def adopt (s : State) : State :=
+  { s with conn := some (s.dials + 1), dials := s.dials + 1 }
+
+/-- Does `connect()` call the dialer in this state? -/
+def wouldDial (s : State) : Bool :=
+  !s.started && s.conn.isNone &&
+    (decide (s.src = .dialer) || (decide (s.src = .given) && s.preUsed))
+
+/-- `Start` from the creation of mux, listener, server and client of this attempt (a new
+    session) to its return. `o`: what the other end of the connection does. -/
+def attempt (v : Variant) (s1 : State) (o : Script) (r : StartRes) : Option State :=
+  let s2 : State := { s1 with cur := s1.cur + 1 }
+  match o with
+  | .dialFail => none
+  | .refuse | .noAnswer | .dropReg =>
+    if r = .err .register then some (failStart v s2) else none
+  | .dropCfg =>
+    if r = .err .register then some (failStart v s2)   -- reply lost in the mux read race
+    else if v.raceClosed then
+      (if r = .err .closed then some (failStart v s2) else none)
+    else
+      (if r = .blocked then some { lose s2 with wedged := true } else none)  -- `<-cfgErrC` forever
+  | .dropLate =>
+    if r = .ok then some (establish (lose s2))          -- configured; the loss is noticed later
+    else if r = .err .register then some (failStart v s2)
+    else if v.raceClosed then
+      (if r = .err .closed then some (failStart v s2) else none)
+    else
+      (if r = .blocked then some { lose s2 with wedged := true } else none)
+  | .cfgErr =>
+    -- the runtime end hangs up when configuration fails (as pkg/adaptation does); if that
+    -- overtakes the still unread RegisterPlugin reply, the multiplexer's Read may drop
+    -- the reply and registration is what fails
+    if r = .err .configure ∨ r = .err .register then some (failStart v s2) else none
+  | .ok => if r = .ok then some (establish s2) else none
+  | .stall => if r = .blocked then some { s2 with wedged := true } else none
+
 /-- `Start` under the mutex. `o`: what the runtime end does with the connection this call
-    dials (ignored when no connection is dialled); `r`: what the call returns. `none` =
-    this result is impossible. Where Go's `select` (in the multiplexer's `Read`, in the
-    repaired `Start`) may go either way, several results are possible. -/
+    obtains (ignored when none is obtained); `r`: what the call returns. `none` = this result
+    is impossible. Where Go's `select` (in the multiplexer's `Read`, in the repaired `Start`)
+    may go either way, several results are possible. -/
 def startStep (v : Variant) (s : State) (o : Script) (r : StartRes) : Option State :=
   if s.started then
     (if r = .err .already then some s else none)          -- "stub already started"
   else
-    match s.conn, o with
-    | none, .dialFail =>                                    -- connect(): dial error; nothing was set up
-      if r = .err .dial then some s else none
-    | _, _ =>
-      -- connect(): dial unless a connection is (still) recorded
-      let s1 : State := match s.conn with
-        | none => { s with conn := some (s.dials + 1), dials := s.dials + 1 }
-        | some _ => s
-      -- a recorded connection left behind by a failed Start is closed: nothing reaches the
-      -- runtime end and registration fails on the first write
-      let o' : Script := if connDead s1 then .dropReg else o
-      -- mux, listener, server, client of this attempt: a new session
-      let s2 : State := { s1 with cur := s1.cur + 1 }
-      match o' with
-      | .dialFail => none
-      | .refuse | .noAnswer | .dropReg =>
-        if r = .err .register then some (failStart v s2) else none
-      | .dropCfg =>
-        if r = .err .register then some (failStart v s2)   -- reply lost in the mux read race
-        else if v.raceClosed then
-          (if r = .err .closed then some (failStart v s2) else none)
-        else
-          (if r = .blocked then some { lose s2 with wedged := true } else none)  -- `<-cfgErrC` forever
-      | .dropLate =>
-        if r = .ok then some (establish (lose s2))          -- configured; the loss is noticed later
-        else if r = .err .register then some (failStart v s2)
-        else if v.raceClosed then
-          (if r = .err .closed then some (failStart v s2) else none)
-        else
-          (if r = .blocked then some { lose s2 with wedged := true } else none)
-      | .cfgErr =>
-        -- the runtime end hangs up when configuration fails (as pkg/adaptation does); if that
-        -- overtakes the still unread RegisterPlugin reply, the multiplexer's Read may drop
-        -- the reply and registration is what fails
-        if r = .err .configure ∨ r = .err .register then some (failStart v s2) else none
-      | .ok => if r = .ok then some (establish s2) else none
-      | .stall => if r = .blocked then some { s2 with wedged := true } else none
+    match s.conn with
+    | some _ =>
+      -- connect(): a connection is (still) recorded. One left behind by a failed Start is
+      -- closed: nothing reaches the runtime end and registration fails on the first write
+      attempt v s (if connDead s then .dropReg else o) r
+    | none =>
+      if s.src = .envFd ∧ s.preUsed = true then
+        -- connect(): NRI_PLUGIN_SOCKET still names the descriptor this stub consumed and
+        -- closed when it first connected
+        if r = .err .preconn then some s                   -- "invalid socket (fd) in environment"
+        else if r = .err .register then
+          -- … unless the process has reused that number since: the stub adopts a socket that
+          -- is not its own, nobody answers the registration, and the stub closes it
+          some (failStart v { adopt s with cur := s.cur + 1 })
+        else none
+      else if s.src ≠ .dialer ∧ s.preUsed = false then
+        -- connect(): the connection made before the stub was created; no dial. (`dialFail`
+        -- here: its other end is already gone.)
+        attempt v { adopt s with preUsed := true } (if o = .dialFail then .dropReg else o) r
+      else
+        -- connect(): the dialer
+        if o = .dialFail then (if r = .err .dial then some s else none)   -- nothing was set up
+        else attempt v (adopt s) o r
+
+/-- What `Start` can return when it has obtained a live connection to a runtime end that
+    behaves as `o` (repaired code). -/
+def startResults : Script → List StartRes
+  | .dialFail => [.err .dial]
+  | .refuse | .noAnswer | .dropReg => [.err .register]
+  | .dropCfg => [.err .register, .err .closed]
+  | .dropLate => [.ok, .err .register, .err .closed]
+  | .cfgErr => [.err .configure, .err .register]
+  | .ok => [.ok]
+  | .stall => [.blocked]
+
+/-- ALL results a `Start` call can have in state `s` against runtime behaviour `o` (repaired
+    code, states in which no dead connection is recorded). -/
+def startPossible (s : State) (o : Script) : List StartRes :=
+  if s.started then [.err .already]
+  else if s.src = .envFd ∧ s.preUsed = true then [.err .preconn, .err .register]
+  else if s.src ≠ .dialer ∧ s.preUsed = false then
+    startResults (if o = .dialFail then .dropReg else o)
+  else startResults o
 
 inductive Event
   | start (o : Script) (r : StartRes)
@@ -182,8 +243,11 @@ inductive Event
   | connLost
   /-- `connClosed` of session `sid` runs (holds the mutex, then calls `onClose`) -/
   | closeNotify (sid : Nat)
-  /-- `Wait`: `true` = returns, `false` = blocks on the live session's `doneC` -/
+  /-- `Wait` is called: `true` = it returns at once, `false` = it blocks on the live
+      session's `doneC` -/
   | wait (returned : Bool)
+  /-- a `Wait` call blocked on session `sid`'s `doneC` returns -/
+  | waitRet (sid : Nat)
   /-- the runtime end sends a request over its latest connection; `true` = answered -/
   | dispatch (ok : Bool)
 deriving DecidableEq, Repr
@@ -200,7 +264,12 @@ def step? (v : Variant) (s : State) : Event → Option State
   | .wait ret =>
     if s.wedged then none
     else if ret then (if !s.started || decide (s.cur ∈ s.done) then some s else none)
-    else (if s.started && !decide (s.cur ∈ s.done) then some s else none)
+    else (if s.started && !decide (s.cur ∈ s.done)
+          then some { s with waiting := s.waiting ++ [s.cur] } else none)
+  | .waitRet sid =>
+    -- a receive from a closed channel; needs no lock
+    if decide (sid ∈ s.waiting) && decide (sid ∈ s.done)
+    then some { s with waiting := s.waiting.erase sid } else none
   | .dispatch ok => if ok = alive s then some s else none
 
 def run (v : Variant) (s : State) : List Event → Option State
@@ -266,7 +335,7 @@ def applyObs (p : OpObs) (s : State) : List State :=
     match step? fixed s (.start o r) with
     | none => []
     | some s' =>
-      let mDial := !s.started && s.conn.isNone
+      let mDial := wouldDial s
       let mSid := if s'.cur = s.cur + 1 then s'.cur else 0
       let mConn := if s'.dials = s.dials + 1 then s'.dials else 0
       if mDial = dialed ∧ mSid = sid ∧ mConn = conn then [s'] else []
@@ -276,6 +345,11 @@ def applyObs (p : OpObs) (s : State) : List State :=
   | .nop => [s]
   | .request ok => (step? fixed s (.dispatch ok)).toList
   | .impossible => []
+
+/-- a blocked `Wait` was seen to return: it was one of the calls the configuration has
+    blocked, on a session whose `doneC` is closed -/
+def releaseAny (s : State) : List State :=
+  s.waiting.eraseDups.filterMap fun sid => step? fixed s (.waitRet sid)
 
 /-- a configuration of the automaton: a state, and whether the operation currently between
     `call` and `ret` has already taken effect -/
